@@ -83,6 +83,10 @@ class TableEntry (object):
     # (Judge by the wire form: fields which are ignored for this match's
     #  protocols count as wildcarded in the normalized form)
     wild = self.match._wire_wildcards(self.match.wildcards) & OFPFW_ALL
+    if self.match.dl_type == 0x86dd:
+      # _wire_wildcards() keeps these two for IPv6 (for OVS), but OpenFlow
+      # 1.0 ignores every network field of a non-IPv4/ARP match
+      wild &= ~(OFPFW_NW_TOS | OFPFW_NW_PROTO)
     return self.priority if wild else (1<<16) + 1
 
   def is_matched_by (self, match, priority=None, strict=False, out_port=None):
